@@ -16,13 +16,15 @@ pub fn check() -> Check {
         id: "C24",
         title: "Multiplexed substreams deliver exactly their own bytes",
         level: Level::Exploration,
-        rule: "each run builds a real mplex or yamux pair over a drawn pipe (capacity, chunking, spurious Pending), draws 1..8 substreams opened from either end, each with its own writer/reader units on both ends (write sizes around split_send_size, flushes, half-close or drop, small read buffers); every byte encodes (stream tag, direction, offset). The scheduler interleaves 2 muxer drivers + up to 16 stream units. Heavy profile may reset the connection. Oracle per substream and direction: bytes read are a prefix of bytes written (equality after a clean close when no fault was injected), EOF only after the writer closed/dropped. Non-trivial = at least 2 substreams had data in flight concurrently or a fault fired; distinct = fingerprint over (muxer, config knobs, stream count, per-stream size class and close kind, fault kinds)",
+        rule: "each run builds a real mplex or yamux pair over a drawn pipe (capacity, chunking, spurious Pending), draws 1..8 substreams opened from either end, each with its own writer/reader units on both ends (write sizes around split_send_size, flushes, half-close or drop, small read buffers); every byte encodes (stream tag, direction, offset). The scheduler interleaves 2 muxer drivers + up to 16 stream units. Heavy profile may reset the connection. The *-bulk scenarios use 1..3 substreams of which one moves 140..640 kB in one or both directions (beyond mplex's 128 KiB write high-water mark and yamux's 256 KiB receive window) over pipes of 1 KiB..1 MiB. Oracle per substream and direction: bytes read are a prefix of bytes written (equality after a clean close when no fault was injected), EOF only after the writer closed/dropped. Non-trivial = at least 2 substreams had data in flight concurrently or a fault fired; distinct = fingerprint over (muxer, config knobs, stream count, per-stream size class and close kind, fault kinds)",
         assumptions: &["pipe is a reliable ordered byte stream unless a reset is injected"],
         real: &["libp2p_mplex::Multiplex (codec, io)", "libp2p_yamux::Muxer + yamux 0.14", "StreamMuxer trait plumbing"],
         stub: &["socket -> simkit::pipe", "Swarm connection task -> harness muxer driver unit"],
         scenarios: vec![
             Scenario::new("mplex", 1500, 150_000, run_mplex),
             Scenario::new("yamux", 1500, 150_000, run_yamux),
+            Scenario::new("mplex-bulk", 120, 6_000, run_mplex_bulk),
+            Scenario::new("yamux-bulk", 120, 6_000, run_yamux_bulk),
         ],
     }
 }
@@ -121,7 +123,7 @@ async fn write_side<W: AsyncWrite + Unpin>(mut w: W, data: Vec<u8>, key: (u32, u
 }
 
 async fn read_side<R: AsyncRead + Unpin>(mut r: R, key: (u32, u8), sh: Rc<Shared>) -> R {
-    let cap = [1usize, 3, 16, 64, 4096][choose(5)];
+    let cap = if bulk() { [64usize, 4096, 1 << 16][choose(3)] } else { [1usize, 3, 16, 64, 4096][choose(5)] };
     let mut buf = vec![0u8; cap];
     loop {
         match r.read(&mut buf).await {
@@ -264,7 +266,34 @@ where
     })
 }
 
+thread_local! {
+    /// bulk mode: few substreams, one of them moving more than the muxers' internal windows / high-water marks
+    static BULK: std::cell::Cell<bool> = const { std::cell::Cell::new(false) };
+}
+
+fn bulk() -> bool {
+    BULK.with(|b| b.get())
+}
+
+fn bulk_pipe() -> PipeCfg {
+    let ch = |v| if v == 0 { pipe::Chunking::Random } else { pipe::Chunking::Full };
+    PipeCfg { capacity: [1024, 1 << 16, 1 << 20][choose(3)], read_chunking: ch(choose(3)), write_chunking: ch(choose(3)), pending_permille: [0, 0, 30][choose(3)], eintr_permille: 0 }
+}
+
 fn draw_plans() -> Vec<(u8, Plan)> {
+    if bulk() {
+        let n = 1 + choose(3);
+        let big = choose(n);
+        return (0..n)
+            .map(|i| {
+                let len = |b: bool| if b { 140_000 + choose(500_000) } else { choose(20_000) };
+                let both = choose(3) == 0;
+                let first = choose(2) == 0;
+                let ck = |_: ()| if choose(8) == 0 { CloseKind::Drop } else { CloseKind::Close };
+                (choose(2) as u8, Plan { tag: 1000 + i as u32, len0: len(i == big && (both || first)), len1: len(i == big && (both || !first)), close0: ck(()), close1: ck(()) })
+            })
+            .collect();
+    }
     let n = 1 + choose(8);
     (0..n)
         .map(|i| {
@@ -286,7 +315,8 @@ fn size_class(n: usize) -> u64 {
         0 => 0,
         1..=99 => 1,
         100..=2999 => 2,
-        _ => 3,
+        3000..=99_999 => 3,
+        _ => 4,
     }
 }
 
@@ -301,14 +331,14 @@ where
     note(name);
     note_val("streams", plans.len() as u64);
     for (side, p) in &plans {
-        note_val("plan", *side as u64 + 2 * size_class(p.len0) + 8 * size_class(p.len1) + 32 * (p.close0 == CloseKind::Drop) as u64 + 64 * (p.close1 == CloseKind::Drop) as u64);
+        note_val("plan", *side as u64 + 2 * size_class(p.len0) + 16 * size_class(p.len1) + 128 * (p.close0 == CloseKind::Drop) as u64 + 256 * (p.close1 == CloseKind::Drop) as u64);
     }
     let sh = Rc::new(Shared {
         recs: Default::default(),
         finished: RefCell::new(0),
         total_units: plans.len() * 2,
         conn_err: Default::default(),
-        max_write,
+        max_write: if bulk() { 1 << 16 } else { max_write },
         concurrent_peak: RefCell::new(0),
         active: RefCell::new(0),
         ends_done: Default::default(),
@@ -341,6 +371,10 @@ where
         probe("concurrent_streams_ge_2");
     }
     set_sample(|| format!("{name}: {} substreams {:?}, peak concurrent stream-ends {}, reset={reset}, conn_err={:?}", plans.len(), plans.iter().map(|(s, p)| (*s, p.len0, p.len1, p.close0, p.close1)).collect::<Vec<_>>(), sh.concurrent_peak.borrow(), sh.conn_err.borrow()));
+    if recs.values().any(|r| r.read.len() > 262_144) {
+        probe("stream_delivered_over_256k");
+        mark_nontrivial();
+    }
     for ((tag, dir), r) in recs.iter() {
         trace!("stream {tag}/{dir}: written={} closed={} dropped={} werr={:?} read={} eof={} rerr={:?} aborted={}", r.written.len(), r.write_closed, r.write_dropped, r.write_err, r.read.len(), r.eof, r.read_err, r.reader_aborted);
         ensure!(r.written.starts_with(&r.read), "C24/not-a-prefix", "{name} stream {tag} dir {dir}: bytes read are not a prefix of bytes written (read {} written {}, first diff at {:?}); foreign tag = cross-talk", r.read.len(), r.written.len(), crate::c14::first_diff(&r.read, &r.written));
@@ -387,15 +421,31 @@ where
     Ok(())
 }
 
+fn run_mplex_bulk() -> SimResult {
+    BULK.with(|b| b.set(true));
+    simkit::set_max_steps(3_000_000);
+    let r = run_mplex();
+    BULK.with(|b| b.set(false));
+    r
+}
+
+fn run_yamux_bulk() -> SimResult {
+    BULK.with(|b| b.set(true));
+    simkit::set_max_steps(3_000_000);
+    let r = run_yamux();
+    BULK.with(|b| b.set(false));
+    r
+}
+
 fn run_mplex() -> SimResult {
     draw_policy();
     let mut cfg = libp2p_mplex::Config::new();
-    let split = [1usize, 16, 100, 1000, 8192][choose(5)];
+    let split = if bulk() { [1000usize, 8192, 1 << 20][choose(3)] } else { [1usize, 16, 100, 1000, 8192][choose(5)] };
     let maxbuf = [1usize, 2, 4, 32][choose(4)];
     cfg.set_split_send_size(split).set_max_buffer_size(maxbuf).set_max_buffer_behaviour(libp2p_mplex::MaxBufferBehaviour::Block);
     note_val("split", split as u64);
     note_val("maxbuf", maxbuf as u64);
-    let (a, b) = pipe::pair_cfg(PipeCfg::draw(), PipeCfg::draw());
+    let (a, b) = if bulk() { pipe::pair_cfg(bulk_pipe(), bulk_pipe()) } else { pipe::pair_cfg(PipeCfg::draw(), PipeCfg::draw()) };
     let ctl = a.ctl();
     let ma = futures::executor::block_on(cfg.clone().upgrade_outbound(a, "/mplex/6.7.0")).unwrap();
     let mb = futures::executor::block_on(cfg.upgrade_inbound(b, "/mplex/6.7.0")).unwrap();
@@ -413,7 +463,7 @@ fn run_yamux() -> SimResult {
         c.capacity = 4 << 20;
         c
     };
-    let (a, b) = pipe::pair_cfg(big(PipeCfg::draw()), big(PipeCfg::draw()));
+    let (a, b) = if bulk() { pipe::pair_cfg(big(bulk_pipe()), big(bulk_pipe())) } else { pipe::pair_cfg(big(PipeCfg::draw()), big(PipeCfg::draw())) };
     let ctl = a.ctl();
     let ma = futures::executor::block_on(cfg.clone().upgrade_outbound(a, "/yamux/1.0.0")).unwrap();
     let mb = futures::executor::block_on(cfg.upgrade_inbound(b, "/yamux/1.0.0")).unwrap();
